@@ -575,6 +575,10 @@ class Model:
                 return self.eval_const(r[1], r[2][-1], _depth + 1)
             if isinstance(expr, ast.Name) and expr.id in ('True', 'False', 'None'):
                 return {'True': True, 'False': False, 'None': None}[expr.id]
+            if isinstance(r, External) and r.name.startswith('string.') and r.name.split('.', 1)[1] in (
+                    'digits', 'ascii_letters', 'ascii_lowercase', 'ascii_uppercase', 'hexdigits', 'octdigits', 'punctuation', 'whitespace'):
+                import string as _string
+                return getattr(_string, r.name.split('.', 1)[1])          # constants of the standard library
             if isinstance(r, (ClassInfo, FunctionInfo, ModuleInfo, External)):
                 return r
             return Unknown('unresolved %s' % ast.unparse(expr))
